@@ -109,6 +109,19 @@ class Run:
         self.path = []
         self.hdr_seq = []      # loop headers entered so far (blocks with a back edge into them)
         self.headers = set(int(b[1]) for b in self.pre_blocks if any(int(q) >= int(b[1]) for q in b[4]))
+        # natural loops: header h, back edges u -> h (u >= h in block order); body = h and the blocks from which such a u
+        # is reached backwards without crossing h
+        self.loops = {}
+        for h in self.headers:
+            body = {h}
+            work = [int(q) for q in self.pre_blocks[h][4] if int(q) >= h]
+            while work:
+                u = work.pop()
+                if u not in body:
+                    body.add(u)
+                    work += [int(q) for q in self.pre_blocks[u][4]]
+            self.loops[h] = body
+        self.lstack = []       # the loops the run is in, innermost last: [header, iteration number]
         self.visits = {}
         self.max_steps = max_steps
         self.steps = 0
@@ -138,11 +151,33 @@ class Run:
             return 0           # Circom: an unassigned variable is 0
         return UNK
 
+    def context(self):
+        return tuple((h, n) for h, n in self.lstack)
+
+    def context_entering(self, b):
+        """The context the run will be in once it has entered block b (without changing the state)."""
+        st = [list(x) for x in self.lstack]
+        self._enter(st, b)
+        return tuple((h, n) for h, n in st)
+
+    def _enter(self, st, b):
+        while st and b not in self.loops[st[-1][0]]:
+            st.pop()
+        if b in self.headers:
+            if st and st[-1][0] == b:
+                st[-1][1] += 1
+            else:
+                st.append([b, 0])
+
+    def enter(self, b):
+        self._enter(self.lstack, b)
+
     def note(self, pos, value, know):
         if know[1] != "-" or know[2] != "-":
-            # the iteration context: the sequence of loop headers entered so far (not just its length: runs whose trip
-            # counts depend on the valuation are compared only where they are in the same iteration of the same loops)
-            hs = tuple(self.hdr_seq)
+            # the iteration context: the loops the run is in with their iteration numbers (runs whose trip counts
+            # depend on the valuation are compared where they are in the same iteration of the same loops; behind a
+            # loop all runs are compared again, however many iterations each of them made)
+            hs = self.context()
             ctxk = (pos, hs)
             n = self.visits.get(ctxk, 0)
             self.visits[ctxk] = n + 1
@@ -260,11 +295,12 @@ class Run:
         prev = None
         while True:
             if prev is not None and self.idoms is not None and len(self.pre_blocks[b][4]) >= 2:
-                hs = tuple(self.hdr_seq)
+                hs = self.context_entering(b)
                 ctx = (hs, sum(1 for a in self.arrivals if a[0] == b and a[1][0] == hs))
                 self.arrivals.append((b, ctx, prev, tuple((d, self.last_truth.get(d)) for d in self.deciders(b))))
             prev = b
             self.path.append(b)
+            self.enter(b)
             if b in self.headers:
                 self.hdr_seq.append(b)
             pre = self.pre_blocks[b]
@@ -357,7 +393,7 @@ def value_claim_ok(claim, value, p):
 DEG_N = {"c": 0, "l": 1, "q": 2, "n": 99}
 
 
-def check_values(pre, ssa, p, valuations, max_steps=400):
+def check_values(pre, ssa, p, valuations, max_steps=400, stats=None):
     """Returns list of failing observations: (valuation index, pos, visit, value, claim)."""
     bad = []
     exercised = 0
@@ -365,6 +401,9 @@ def check_values(pre, ssa, p, valuations, max_steps=400):
         inputs = dict(inputs)
         inputs["__elem__"] = (lambda name, idxs, vi=vi: elem_hash(name, idxs, 3 + vi, p, False))
         r = Run(pre, ssa, p, inputs, max_steps).run()
+        if stats is not None:
+            stats["runs"] = stats.get("runs", 0) + 1
+            stats["runs_cut_by_the_step_limit"] = stats.get("runs_cut_by_the_step_limit", 0) + r.cut
         for pos, n, val, cv, cd in r.obs:
             if cv != "-":
                 ok = value_claim_ok(cv, val, p)
@@ -440,12 +479,12 @@ def fits_degree(points, hi, p):
 
 def check_degrees(pre, ssa, p, base, direction, names, max_steps=400, idoms=None, audit=None, stats=None):
     """Degree claims along the line base + t*direction (t = 0..4) in the space of the indeterminates `names`.
-    A claim `degree <= d` on a node is judged in every iteration context (sequence of loop headers entered so far,
-    visit number) on the runs that reach the node in that context: their values must lie on a polynomial of degree
-    <= d in t. When the five runs enter the same loop headers in the same order (the trip counts do not depend on
-    the valuation) that is all five points; when the trip counts depend on the valuation, a context is reached by
-    some of the runs only and is judged when at least d + 2 of them reach it (otherwise counted as discarded in
-    `stats`). Returns (bad, exercised, diverged)."""
+    A claim `degree <= d` on a node is judged in every iteration context (the loops the run is in with their
+    iteration numbers, visit number) on the runs that reach the node in that context: their values must lie on a
+    polynomial of degree <= d in t. When the trip counts do not depend on the valuation that is all five points;
+    when they do, a context inside such a loop is reached by some of the runs only and is judged when at least d + 2
+    of them reach it (otherwise counted as discarded in `stats`); BEHIND such a loop all five runs are compared again
+    (a value that depends on the number of iterations is piecewise in the valuation, not a low-degree polynomial). Returns (bad, exercised, diverged)."""
     runs = []
     zero_base = all(v == 0 for k, v in base.items() if k != "__elem__")
     for t in range(5):
@@ -475,7 +514,7 @@ def check_degrees(pre, ssa, p, base, direction, names, max_steps=400, idoms=None
         stats["lines"] = stats.get("lines", 0) + 1
         stats["runs"] = stats.get("runs", 0) + len(runs)
         stats["runs_cut_by_the_step_limit"] = stats.get("runs_cut_by_the_step_limit", 0) + sum(1 for r in runs if r.cut)
-        stats["claims_on_phi_statements_met"] = stats.get("claims_on_phi_statements_met", 0) + sum(r.phi_claims_seen for r in runs)
+        stats["phi_statements_met_with_their_variable_assigned"] = stats.get("phi_statements_met_with_their_variable_assigned", 0) + sum(r.phi_claims_seen for r in runs)
         stats["component_port_reads_as_indeterminates"] = stats.get("component_port_reads_as_indeterminates", 0) + sum(r.comp_reads for r in runs)
         if sigdep:
             stats["lines_with_signal_dependent_trip_counts"] = stats.get("lines_with_signal_dependent_trip_counts", 0) + 1
